@@ -475,6 +475,19 @@ func c13Parse(src string) *parser.Program {
 	return p
 }
 
+// c13Reuse: the observed execution is the second one of a reused Interpreter (part R).
+var c13Reuse bool
+
+func c13HasCommand(ops []string) bool {
+	for _, k := range ops {
+		switch k {
+		case "pipe1", "pipe2", "closep", "system", "cmdget", "status", "emptyp", "csvemptyp":
+			return true
+		}
+	}
+	return false
+}
+
 // c13Exec runs one execution under the scheduler with the given choices.
 func c13Exec(ch *sched.Chooser, src string, buffered bool, noPreempt bool, failAt int) c13Obs {
 	os.Remove(filepath.Join(c13Dir, "f1"))
@@ -508,7 +521,25 @@ func c13Exec(ch *sched.Chooser, src string, buffered bool, noPreempt bool, failA
 		o.Starts = append(o.Starts, snap)
 	}
 	s.Spawn("main", func() {
-		o.Res = awk.Exec(prog, &interp.Config{Output: output, Stdin: strings.NewReader(""), ShellCommand: []string{"sh", "-c"}})
+		cfg := &interp.Config{Output: output, Stdin: strings.NewReader(""), ShellCommand: []string{"sh", "-c"}}
+		if c13Reuse {
+			// the observed run is the second Execute of one Interpreter; the first one ran the
+			// same program with a writer of its own, after which the files are put back
+			ip, err := interp.New(prog)
+			if err != nil {
+				panic(err)
+			}
+			func() {
+				defer func() { recover() }()
+				ip.Execute(&interp.Config{Output: &c13Writer{s: s, FailAt: -1}, Error: io.Discard, Environ: []string{}, Stdin: strings.NewReader(""), ShellCommand: []string{"sh", "-c"}})
+			}()
+			os.Remove(filepath.Join(c13Dir, "f1"))
+			os.WriteFile(filepath.Join(c13Dir, "f2"), []byte("old\n"), 0o644)
+			saved := awk.ExecHook
+			awk.ExecHook = func(_ *parser.Program, cfg *interp.Config) (int, error) { return ip.Execute(cfg) }
+			defer func() { awk.ExecHook = saved }()
+		}
+		o.Res = awk.Exec(prog, cfg)
 	})
 	s.Run()
 	o.Deadlock, o.Overrun, o.Panics, o.Events = s.Deadlock, s.Overrun, s.Panics, w.Events
@@ -670,6 +701,17 @@ func c13RunSeq(c *core.Ctx, ops []string, bound int) {
 		c.Outcome(o.Out.String() + fmt.Sprint(o.Files, o.Res.Status, o.Res.Err != nil))
 		for _, f := range c13Judge(ops, m, o) {
 			c.Fail("X:"+f[0], c13Case{Ops: ops, Buffered: buffered, Part: "X"}, f[1])
+		}
+		// R: the same sequence as the second run of a reused Interpreter (sequences without commands)
+		if !c13HasCommand(ops) {
+			c13Reuse = true
+			o := c13Exec(sched.NewChooser(nil), src, buffered, false, -1)
+			c13Reuse = false
+			c.Eval(2)
+			c.Add("transitions", 1)
+			for _, f := range c13Judge(ops, m, o) {
+				c.Fail("R:"+f[0], c13Case{Ops: ops, Buffered: buffered, Part: "R"}, f[1])
+			}
 		}
 		// S: all interleavings up to the bound, for sequences with a child sharing stdout
 		if bound > 0 && c13HasSharedChild(ops) {
@@ -1018,8 +1060,10 @@ func c13Replay(c *core.Ctx, raw json.RawMessage) {
 	switch cs.Part {
 	case "two-names":
 		c13TwoEval(c, c13TwoCase{Part: cs.Part, Ops: cs.Ops})
-	case "X", "S":
+	case "X", "S", "R":
 		m := c13Expect(cs.Ops)
+		c13Reuse = cs.Part == "R"
+		defer func() { c13Reuse = false }()
 		o := c13Exec(sched.NewChooser(cs.Choices), c13Source(cs.Ops), cs.Buffered, false, -1)
 		for _, f := range c13Judge(cs.Ops, m, o) {
 			c.Fail(cs.Part+":"+f[0], cs, f[1])
@@ -1063,7 +1107,7 @@ func init() {
 	core.Register(&core.Check{
 		ID:    "C13",
 		Level: "model_checking",
-		Rule: "X: every sequence of <=3 (thorough <=4) operations over 17 kinds (print/printf to stdout, > file, >> file, | two commands, close, fflush, system, cmd|getline, getline<file, exit status of closed commands, exit, run-time error) run on the real interpreter over virtual processes, with unbuffered and bufio-wrapped Config.Output, against a destination model (state = one sequence); " +
+		Rule: "X: every sequence of <=3 (thorough <=4) operations over 17 kinds (print/printf to stdout, > file, >> file, | two commands, close, fflush, system, cmd|getline, getline<file, exit status of closed commands, exit, run-time error) run on the real interpreter over virtual processes, with unbuffered and bufio-wrapped Config.Output, against a destination model (state = one sequence); R: every such sequence without commands again as the second Execute of a reused Interpreter (files put back in between), judged by the same model; " +
 			"S: for sequences with a child sharing stdout, every schedule of program/child/copy threads with up to 2 (thorough 3; one less for the longest sequences) deviations from the default scheduler (a preemption or a non-default pick at a blocking point) under a cooperative scheduler where each Write to Config.Output is a two-event critical section (transition = one schedule); " +
 			"D2: one file appended to (>>) through two names and by a real child in turn, every sequence of <=4 operations over {>> f2, >> ./f2, fflush, close either, system(echo >> f2)}: old content plus every line exactly once; " +
 			"D: a write failure at every byte offset of stdout for 11 output paths x {unbuffered, bufio}, plus the CLI with stdout=/dev/full; distinct = distinct stdout/file observations",
